@@ -46,7 +46,7 @@ DEFAULT = dict(
     p_drawing=0.06, p_pict=0.05, p_textbox=0.05, p_instr=0.04, p_deltext=0.04, p_runmisc=0.04,
     rich_text=True, offvals=True,
     # parts
-    p_prchange=0.07, bare_vals=False, p_double_rel=0.12, p_abs_target=0.12, p_orphan_core=0.2, p_same_image_name=0.0,
+    p_prchange=0.07, bare_vals=False, p_double_rel=0.12, p_abs_target=0.12, p_orphan_core=0.2, p_same_image_name=0.0, p_empty_part=0.15,
     p_footnotes=0.6, p_endnotes=0.4, p_header=0.5, p_footer=0.5, p_comments=0.5, p_numbering=0.85, p_core=0.5,
     p_no_r_ns=0.0, dangling=True,
 )
@@ -153,7 +153,7 @@ class DocGen:
                              '<w:footnoteRef/>', '<w:footnoteReference w:id="3"/>', '<w:endnoteRef/>'])
         if kind == 'form': return self.form()
         if kind == 'drawing':
-            dsc = r.choice(['', ' descr="d &amp; &lt;x&gt;"', ' descr=""', ' descr="plain alt"'] if P.get('alt_markup', True) else ['', ' descr="plain alt"', ' descr="alt two"'])
+            dsc = r.choice(['', ' descr="d &amp; &lt;x&gt;"', ' descr=""', ' descr="plain alt"', ' title="t &amp; &lt;i&gt;"', ' title="only a title"'] if P.get('alt_markup', True) else ['', ' descr="plain alt"', ' descr="alt two"'])
             e = r.choice(['r:embed="rId20"', 'r:embed="rId404"', 'r:link="rId21"', '', 'r:embed="rId21"'] if P.get('dangling') else ['r:embed="rId20"', 'r:embed="rId21"', ''])
             if P.get('no_r'): e = r.choice(['', f'xmlns:r="{NSMAP["r"]}" r:embed="rId20"'])      # the prefix may be declared on the picture itself
             if r.random() < 0.2 and dsc:
@@ -199,7 +199,7 @@ class DocGen:
             inner = ''.join(self.inline(d + 1, in_link=True) for _ in range(r.randint(0, 3)))
             return f'<w:hyperlink {a}>{inner}</w:hyperlink>'
         opts = ['r:id="rId9"', 'w:anchor="bm"', 'r:id="rId9" w:anchor="bm"', '', 'r:id="" w:anchor="x"', 'w:tooltip="t" r:id="rId9" w:history="1"',
-                'r:id="rId10"', 'r:id="rId9" w:anchor="other"']
+                'r:id="rId10"', 'r:id="rId9" w:anchor="other"', 'r:id="rId9" w:anchor="{bm}"', 'r:id="rId10" w:tgtFrame="_blank" w:docLocation="loc"']
         if self.p.get('dangling'): opts.append('r:id="rId404"')
         a = r.choice(opts)
         inner = ''.join(self.inline(d + 1, in_link=True) for _ in range(r.randint(0, 3)))
@@ -262,7 +262,7 @@ class DocGen:
         if not self.coin('p_ppr'): return ''
         out = ''
         if self.coin('p_style'):
-            out += f'<w:pStyle w:val="{r.choice(["Heading1", "Heading2", "Heading7", "Title", "ListParagraph", "", "Heading6", "heading1"])}"/>'; self.c('pStyle')
+            out += f'<w:pStyle w:val="{r.choice(["Heading1", "Heading2", "Heading7", "Title", "ListParagraph", "", "Heading6", "heading1", "Heading 2", "heading 3", "Heading10", "MyHeading1"])}"/>'; self.c('pStyle')
         if self.coin('p_tabstops'):
             out += '<w:tabs>' + ''.join('<w:tab w:val="left" w:pos="%d"/>' % (720 * (i + 1)) for i in range(r.randint(1, 2))) + '</w:tabs>'; self.feat.add('tabstops')
         if self.coin('p_list'):
@@ -320,7 +320,7 @@ class DocGen:
                 if self.coin('p_vmerge'):
                     vm = r.choice(['<w:vMerge/>', '<w:vMerge w:val="restart"/>', '<w:vMerge w:val="continue"/>']); self.feat.add('vMerge')
                     pr += vm; cont_cell = 'restart' not in vm
-                if r.random() < 0.05: pr += '<w:hMerge w:val="restart"/>'
+                if r.random() < 0.06: pr += r.choice(['<w:hMerge w:val="restart"/>', '<w:hMerge/>', '<w:hMerge w:val="continue"/>'])      # legacy horizontal merge: separate cells
                 if P.get('bare_vals') and r.random() < 0.1: pr += '<w:gridSpan/>'
                 if self.coin('p_prchange'):
                     pr += r.choice(['<w:tcPrChange w:id="50" w:author="a"><w:tcPr><w:gridSpan w:val="3"/></w:tcPr></w:tcPrChange>',
@@ -339,6 +339,7 @@ class DocGen:
                     cont = cont or '<w:bookmarkStart w:id="9" w:name="c"/>'; self.feat.add('cell_nopar')
                 else:
                     if r.random() < 0.9 or not cont: cont += self.par(d)
+                if self.coin('p_comment_marker') and not self.p.get('no_marker_between_cells'): cont += self.comment_marker(bare=True); self.feat.add('marker_between_rows_or_cells')
                 out += f'<w:tc><w:tcPr>{pr}</w:tcPr>{cont}</w:tc>'
             if self.coin('p_sdt_cell'): out += '<w:sdt><w:sdtContent><w:tc><w:p/></w:tc></w:sdtContent></w:sdt>'
             out += '</w:tr>'
@@ -358,6 +359,9 @@ class DocGen:
                     return ('<w:sdt><w:sdtPr><w:docPartObj><w:docPartGallery w:val="Table of Contents"/></w:docPartObj></w:sdtPr><w:sdtContent>'
                             + ''.join(self.block(d + 1) for _ in range(r.randint(0, 2))) + '</w:sdtContent></w:sdt>')
                 if name == 'cx': return '<w:customXml w:element="e">' + ''.join(self.block(d + 1) for _ in range(r.randint(0, 2))) + '</w:customXml>'
+                if self.p.get('stray_inline') and r.random() < 0.5:
+                    # inline content outside any paragraph / an unknown wrapper that declares a default namespace: well-formed, not schema-valid
+                    return r.choice([self.run(d), '<block xmlns="urn:x-unknown">' + self.par(d) + '</block>', self.run(d) + self.run(d)])
                 return r.choice(['<w:bookmarkStart w:id="4" w:name="z"/>', '<w:altChunk r:id="rId50"/>' if not self.p.get('no_r') else '<w:bookmarkEnd w:id="4"/>',
                                  '<m:oMathPara><m:oMath><m:r><m:t>z</m:t></m:r></m:oMath></m:oMathPara>', self.comment_marker()])
         return self.par(d)
@@ -449,7 +453,7 @@ def make_package(rng, prof=None, body=None):
         root_rels.append(('rId2', CORE_RT, 'docProps/core.xml'))
     pk.add('_rels/.rels', rels_xml(root_rels))
     pk.add('word/document.xml', f'<w:document {NS}><w:body>{body_xml}</w:body></w:document>')
-    dr = [('rId9', 'hyperlink', r.choice(['http://x/', 'http://x/', 'http://z/app/#/settings', 'http://x/guide.html#intro', 'mailto:a@b.c', 'C:\\docs\\x.docx', 'HTTP://X/Y', 'tel:+123', '../other.docx']), True), ('rId10', 'hyperlink', 'http://y/?a=1&b=2', True), ('rId20', 'image', 'media/i.png'),
+    dr = [('rId9', 'hyperlink', r.choice(['http://x/', 'http://x/', 'http://z/app/#/settings', 'http://x/guide.html#intro', 'mailto:a@b.c', 'C:\\docs\\x.docx', 'HTTP://X/Y', 'tel:+123', '../other.docx', 'https://e.com/users/{id}/profile', 'http://x/%7Buser%7D?q={0}']), True), ('rId10', 'hyperlink', 'http://y/?a=1&b=2', True), ('rId20', 'image', 'media/i.png'),
           ('rId21', 'image', 'http://ext/i.png', True)]
     if r.random() < prof['p_numbering']:
         pk.add('word/numbering.xml', f'<w:numbering {ns_decl()}>{g.numbering()}</w:numbering>'); dr.append(('rId3', 'numbering', 'numbering.xml'))
@@ -479,6 +483,8 @@ def make_package(rng, prof=None, body=None):
               + r.choice(['<w:footnote w:id="3"/>', '<w:footnote w:id="3">' + g.par() + '</w:footnote>']))
         pk.add('word/footnotes.xml', f'<w:footnotes {ns_decl()}>{fn}</w:footnotes>'); dr.append(('rId5', 'footnotes', 'footnotes.xml'))
         extra_rels['word/_rels/footnotes.xml.rels'] = [('rId9', 'hyperlink', 'http://fn/', True), ('rId20', 'image', 'media/j.png')]
+    elif r.random() < prof.get('p_empty_part', 0):
+        pk.add('word/footnotes.xml', f'<w:footnotes {ns_decl()}/>'); dr.append(('rId5', 'footnotes', 'footnotes.xml')); g.feat.add('part_without_paragraphs')
     if r.random() < prof['p_endnotes']:
         pk.add('word/endnotes.xml', f'<w:endnotes {ns_decl()}><w:endnote w:id="' + r.choice(['9', '9', '0', '-1']) + '">' + g.par() + '</w:endnote>' + (('<w:endnote w:type="continuationNotice" w:id="10">' + g.par() + g.par() + '</w:endnote>') if r.random() < 0.3 else '') + '</w:endnotes>'); dr.append(('rId6', 'endnotes', 'endnotes.xml'))
     nh = 0
